@@ -120,6 +120,16 @@ pub fn c12(c: &mut Ctx) {
     if !(valid_ref(mx.0, mx.1) && mx.0 == f64::MAX && from_raw(mx.0, mx.1).is_valid()) {
         c.viol("assoc", "max_invalid", &ins, &[], "MAX must be valid with hi == f64::MAX".into());
     }
+    // nothing above MAX / below MIN may be accepted by the library's own is_valid / try_from
+    for l in [next_up(mx.1), pow2(970), 1e300, f64::MAX, step(mx.1, 5)] {
+        for (h, lw) in [(f64::MAX, l), (-f64::MAX, -l)] {
+            let acc = from_raw(h, lw).is_valid() || <TwoFloat as core::convert::TryFrom<(f64, f64)>>::try_from((h, lw)).is_ok();
+            c.note("assoc", &[hx(h), hx(lw)], true);
+            if acc {
+                c.viol("assoc", "beyond_max_accepted", &[hx(h), hx(lw)], &[], "a value beyond MAX/MIN is accepted as valid: MAX/MIN are not the extreme valid values".into());
+            }
+        }
+    }
     if valid_ref(mx.0, next_up(mx.1)) {
         c.viol("assoc", "max_not_largest", &ins, &[], "(f64::MAX, next_up(lo)) is still valid: MAX is not the largest valid value".into());
     }
